@@ -20,6 +20,7 @@ INVARIANT LawCanonFixedPoint
 INVARIANT LawBareIsOneTuple
 INVARIANT LawItemwise
 INVARIANT LawOkFromGrade
+INVARIANT LawComparer
 INVARIANT LawListAnswers
 INVARIANT LawLGUnorderedMany
 INVARIANT LawLGContiguous
